@@ -17,6 +17,30 @@ CHECKS = {
          "Generated batches of size 1..1100 (boundaries 255/256/257/511/512/513 stratified), invalid members at generated positions, mixed aggregation/capacity, all modes, permutations; malformed batches; cancelling defect pairs. Batch verdict must equal AND of singleton verdicts, results must be k long and aligned.",
          "Singleton verification by the library (cross-checked against the reference verifier) decides member validity; long batches use members of at most 8 bits.",
          "DESIGN.md section 3, C03"),
+ "C05": ("exploration", "property-based testing with exhaustive per-case enumeration of component positions x replacement values (metamorphic: one alteration => error)",
+         "For each generated accepted triple every proof scalar, proof point, round count, degree tag, commitment, commitment order, promise, bit length, Pedersen generator and transcript context is altered in turn (2-6 replacement values each) and verified alone in VerifyOnly and RecoverAndVerify and as the last, larger member of a batch; every outcome must be an error value; None<->Some(0) is the accepted control.",
+         "Rejections rest on exact algebra over F and on a changed transcript; over Ristretto an accidental acceptance has probability ~2^-252. Alterations of proof elements are impossible for bits*m == 1 (known finding C15), counted as excluded.",
+         "DESIGN.md section 3, C05"),
+ "C06": ("exploration", "property-based testing: prover result compared with an independently written witness-validity predicate; single-violation generator",
+         "Valid (statement, witness) pairs with at most one violation at a generated position (count, degree incl. short openings that still reproduce the commitment, value, blinding, swapped openings, value >= 2^bits with or without compensating promise, promise above value). prove is Ok iff predicate; Ok implies the proof verifies and the reference accepts.",
+         "Predicate uses the reference's own commitment and 128-bit range arithmetic.",
+         "DESIGN.md section 3, C06"),
+ "C07": ("exploration", "property-based testing: metamorphic promise substitution at verification, prover boundary per aggregate position, residual h-coordinate comparison over the free module",
+         "Proofs made under promise vector p verify exactly under value-wise equal vectors; out-of-range promises are refused; promise == value proves, value + 1 is refused at every position with the others valid; over F the promise-dependent h-coefficient of the verifier's equation equals the reference's.",
+         "Transcript binding of promises is decided by C04; algebra by the reference relation.",
+         "DESIGN.md section 3, C07"),
+ "C09": ("exploration", "property-based testing over generated batch compositions with the commitment's blinding vector and an independent reference recovery as oracle",
+         "Batches of 1-12 members mixing seeded, unseeded and aggregated members with per-component-distinct blindings, all bit lengths, degrees 1-6, capacities m..4m, in all three modes; result i must equal the blinding vector of commitment i or None as specified.",
+         "Reference recovery (refimpl.rs) uses its own Blake2b nonce derivation.",
+         "DESIGN.md section 3, C09"),
+ "C10": ("exploration", "property-based testing: verdict invariance over {no seed, right seed, wrong seed} x modes, wrong seed derived by single-bit flips at generated positions, in batches",
+         "For valid and mutated non-aggregated proofs, alone or between neighbouring members: identical accept/reject verdict in VerifyOnly and RecoverAndVerify whatever seed the statement carries; right seed gives the mask, any different seed (incl. a one-bit difference at each of 252 positions) gives Ok with a different vector; RecoverOnly equals RecoverAndVerify whenever the latter accepts.",
+         "RecoverOnly's Ok on invalid proofs is by design and not compared.",
+         "DESIGN.md section 3, C10"),
+ "C12": ("exploration", "property-based testing: metamorphic capacity change (prove under c_p, verify under c_v, alone and in mixed-capacity batches) plus generator comparison with a capacity-independent reference derivation",
+         "Aggregates of 1-8 commitments proved under capacity m*2^a and verified under m*2^b, alone and inside batches with other capacities, all modes; every vector generator under each capacity equals the reference derivation for (party, index).",
+         "Size bound bits*capacity <= 1024 (quick F).",
+         "DESIGN.md section 3, C12"),
 }
 NOT_YET = "check not built yet in this revision of /verif (planned in DESIGN.md section 3)"
 m = {
